@@ -147,6 +147,7 @@ def run(ctx):
             with ctx.guard(key):
                 ctxd = {"made": []}
                 I = Interp(repo)
+                I.explore_undefined_enums = True   # an element enumeration that refuses a received value is a (raising) path of its own
                 install_stubs(I, repo, ctxd)
 
                 def run_t(st, tname=tname, hkind=hkind, kind=kind):
